@@ -358,7 +358,11 @@ var entryK = map[string]int{"codecs.(*AV1Payloader).Payload": 16}
 // body depends on which of those paths was taken.
 // entryRetCap: entries in which the outcomes of small helpers (a two-way clamp, the three returns of a size
 // computation) must stay apart after the call: merged, "r = min(a, b)" is only "r <= a, r <= b".
-var entryRetCap = map[string]int{"codecs.(*AV1Payloader).appendOBUPayload": 16}
+// The header marshallers: MarshalSize's outcomes (no extension block; one per profile arm, with and without
+// elements) carry "size >= 16 + 4*CSRC when the extension flag is set"; merged with the no-extension outcome
+// that bound is lost.
+var entryRetCap = map[string]int{"codecs.(*AV1Payloader).appendOBUPayload": 16,
+	"rtp.(Header).MarshalTo": 16, "rtp.(Header).Marshal": 16, "rtp.(*Packet).MarshalTo": 16, "rtp.(*Packet).Marshal": 16, "rtp.(Packet).Marshal": 16, "rtp.(Packet).MarshalTo": 16}
 
 var entryLoopCap = map[string]int{"codecs.(*AV1Payloader).appendOBUPayload": 4}
 
